@@ -311,6 +311,17 @@ fn consume_rules_with_spans(
         .collect()
 }
 
+fn parse_peek_index(pair: &Pair<'_, Rule>) -> Result<i32, Vec<Error<Rule>>> {
+    pair.as_str().parse().map_err(|_| {
+        vec![Error::new_from_span(
+            ErrorVariant::CustomError {
+                message: "number cannot overflow i32".to_owned(),
+            },
+            pair.as_span(),
+        )]
+    })
+}
+
 fn get_node_tag<'i>(
     pairs: &mut Peekable<Pairs<'i, Rule>>,
 ) -> (Pair<'i, Rule>, Option<(String, Position<'i>)>) {
@@ -426,7 +437,7 @@ fn consume_expr<'i>(
                             Rule::range_operator => 0,
                             Rule::integer => {
                                 pairs.next().unwrap(); // ..
-                                pair_start.as_str().parse().unwrap()
+                                parse_peek_index(&pair_start)?
                             }
                             _ => unreachable!("peek start"),
                         };
@@ -435,7 +446,7 @@ fn consume_expr<'i>(
                             Rule::closing_brack => None,
                             Rule::integer => {
                                 pairs.next().unwrap(); // }
-                                Some(pair_end.as_str().parse().unwrap())
+                                Some(parse_peek_index(&pair_end)?)
                             }
                             _ => unreachable!("peek end"),
                         };
